@@ -312,10 +312,10 @@ PROPS["C18"] = {
     "modules": ["WhatIs.Props.C18"],
     "theorems": ["WhatIs.C18.no_map_range", "WhatIs.C18.null_rejected", "WhatIs.C18.numeric_dates_handled", "WhatIs.C18.empty_shown",
                  "WhatIs.C18.tables_ok", "WhatIs.C18.split_three", "WhatIs.C18.jwt_iff", "WhatIs.C18.registered_readback",
-                 "WhatIs.C18.alg_readback", "WhatIs.C18.numeric_dates", "WhatIs.C18.absent_not_shown", "WhatIs.C18.header_claims_apart", "WhatIs.C18.order_independent",
+                 "WhatIs.C18.alg_readback", "WhatIs.C18.numeric_dates", "WhatIs.C18.date_strings", "WhatIs.C18.date_bound", "WhatIs.C18.date_string_fallback", "WhatIs.C18.absent_not_shown", "WhatIs.C18.header_claims_apart", "WhatIs.C18.order_independent",
                  "WhatIs.C18.signature_readback"],
     "facts": {"jwt.rangesOverMap": False, "jwt.nullRejected": True, "jwt.numericDates": True, "jwt.emptyShown": True,
-              "jwt.paramCount": 16, "jwt.algCount": 12},
+              "jwt.paramCount": 17, "jwt.algCount": 12, "jwt.dateBoundLog2": 62, "jwt.dateStringFallback": True},
     "nontrivial": nt_c18,
     "rule": "tokens built from header/payload objects over random subsets of the 16 registered names plus unknown names, values over "
             "strings (incl. empty, numeric-looking, control characters), integers/floats/exponent forms, null/bool/array/object, 12 "
@@ -332,7 +332,7 @@ PROPS["C18"] = {
     "level_note": "Trusted: Lean kernel; translator; encoding/json (oracle: harness records the decoded objects); time formatting model "
                   "(shared with C17, read back in the oracle); C14's base64 theorems.",
     "technique": "Lean 4 proof (filterMap/lookup reasoning over regenerated tables, reuse of C14 accept_iff) + differential correspondence with JSON oracle records",
-    "trusted_base": ["encoding/json Unmarshal into map[string]any (oracle record)"],
+    "trusted_base": ["encoding/json: json.Valid (RFC 8259 grammar) and Decoder.UseNumber into map[string]any (oracle record; numbers as exact rationals, floor by math/big)"],
     "assumptions": ["H-json: duplicate member names and number syntax are resolved by the library"],
 }
 
